@@ -88,6 +88,7 @@ func init() {
 	var w *c16World
 	var calls []*c39Call
 	stalledCalls := map[int][]c39Stalled{}
+	var routeSeq uint64
 	dump := func(items []string) string {
 		for _, s := range w.drain() {
 			switch s.f.Type {
@@ -138,6 +139,11 @@ func init() {
 				calls = nil
 				w.resetPeers()
 				agent.C39ResetControl(w.a)
+				var all []identity.AgentID
+				for n := 1; n <= 9; n++ {
+					all = append(all, c16ID(n))
+				}
+				agent.C39ForgetAgentRoutes(w.a, all)
 				return "ok"
 			case "conn":
 				w.connect(c16Atoi39(f[1]), true)
@@ -255,6 +261,10 @@ func init() {
 					}
 				}
 				return dump([]string{got})
+			case "route": // route A via Z: the routing table learns agent A behind peer Z
+				routeSeq++
+				agent.C39AddAgentRoute(w.a, c16ID(c16Atoi39(f[3])), c16ID(c16Atoi39(f[1])), routeSeq)
+				return dump(nil)
 			case "sleep": // the agent's real sleep transition: every peer connection is closed
 				must(agent.C39EnterSleep(w.a))
 				w.forgetPeers()
@@ -348,6 +358,12 @@ func c39Gen(w *bufio.Writer, seed int64, tier string) {
 		fmt.Fprintf(w, "reset\nconn 4\nconn 5\nsend 4\nsleep\nwake\nconn 4\nconn 5\nsend 5\n%s\n%s\n", late[0], late[1])
 		fmt.Fprintf(w, "reset\nconn 1\nconn 4\nreq 1 7 4\nsend 4\nsleep\nwake\nconn 1\nconn 4\nsend 4\nresp 4 7 ok 4\nresp 4 1 ok 4\nresp 4 2 ok 4\n")
 	}
+	// fixed: the requester's link drops while its relayed request is in flight; the requester stays
+	// reachable through another peer (routing table). The answer must go to nobody — or to the requester
+	// itself once it has reconnected — never to an agent that neither issued nor relayed the request.
+	fmt.Fprintf(w, "reset\nconn 1\nconn 2\nconn 4\nreq 1 7 4\ndisc 1\nroute 1 via 2\nresp 4 7 ok 4\ndisc 2\n")
+	fmt.Fprintf(w, "reset\nconn 1\nconn 2\nconn 4\nroute 1 via 2\nreq 1 8 4\ndisc 1\nresp 4 8 ok 4\ndisc 2\n")
+	fmt.Fprintf(w, "reset\nconn 1\nconn 2\nconn 4\nreq 1 9 4\ndisc 1\nroute 1 via 2\nconn 1\nresp 4 9 ok 4\ndisc 2\n")
 	for c := 0; c < n; c++ {
 		fmt.Fprintf(w, "reset\n")
 		np := 3 + r.intn(3)
